@@ -6,6 +6,7 @@ import (
 	"math/rand"
 	"sort"
 	"strings"
+	"time"
 
 	"github.com/ryogrid/SamehadaDB/lib/storage/access"
 
@@ -46,27 +47,32 @@ type Txn struct {
 
 // Params of a history.
 type Params struct {
-	MemKB      int
-	Tables     []TableDef
-	Steps      int
-	MaxOpen    int
-	MaxPayload int     // longest v
-	Bias       string  // "commit" (C01) or "loser" (C02)
-	Checkpoint bool
-	RowSizes   []int
-	File       bool // file-backed disk manager for the live run (needed for clean shutdown / reopen)
+	MemKB         int
+	Tables        []TableDef
+	Steps         int
+	MaxOpen       int
+	MaxPayload    int    // longest v
+	Bias          string // "commit" (C01) or "loser" (C02)
+	Checkpoint    bool
+	RowSizes      []int
+	File          bool // file-backed disk manager for the live run (needed for clean shutdown / reopen)
 	CleanShutdown bool // end the live run with SamehadaDB.Shutdown() (flush + graceful-shutdown record) instead of closing the files
-	NoUpdate   bool // never generate UPDATE (tables with a hash index: UpdateEntry is unimplemented there)
+	NoUpdate      bool // never generate UPDATE (tables with a hash index: UpdateEntry is unimplemented there)
+	// concurrent histories (RunConcurrent)
+	Clients      int
+	ConcurrentIO bool          // recorder does not serialise the engine's I/O calls (see rec.Recorder.Concurrent)
+	LogDelay     time.Duration // extra latency of every log write in ConcurrentIO mode
+	ThinkTime    time.Duration // upper bound of random pauses between the statements of a transaction
 	// OnQuiescent is called whenever no transaction is open right after a transaction ended. Returning false stops the history.
 	OnQuiescent func(q *Quiescent) bool
 }
 
 // Quiescent describes a point of the history at which no transaction is in progress.
 type Quiescent struct {
-	DB     *sqlx.DB
-	Model  map[string][]rm.Row // committed rows per table
-	Ended  []*Txn              // transactions that ended since the previous quiescent point
-	MaxID  int32               // all ids ever used are in 1..MaxID
+	DB    *sqlx.DB
+	Model map[string][]rm.Row // committed rows per table
+	Ended []*Txn              // transactions that ended since the previous quiescent point
+	MaxID int32               // all ids ever used are in 1..MaxID
 }
 
 // History is the result of running a generated workload under the recorder.
